@@ -119,7 +119,7 @@ def job_resolve(j):
             adopted = None
             if new:
                 no = market.blotter._orders[new[0]]
-                adopted = sl.index(no.trade.strategy)
+                adopted = sl.index(no.trade.strategy) if no.trade.strategy in sl else 99      # 99: a strategy object this instance does not run
                 orders.append(no)   # from now on it is a local order
                 hit = []
             res.append({"ref": cps(ref), "order": hit[0] if hit else None, "strategy": adopted,
